@@ -331,6 +331,15 @@ def unflex : Init → Init
   | .flex => .arr []
   | o => o
 
+/-- p10: a union whose brace-enclosed list reached no member has its first named member initialised (to zero) -/
+def defaultMember (t : Ty) (o : Init) : Init :=
+  match t, o with
+  | .union ms _ _, .union e none cs =>
+    match nextNamed ms ms.length 0 with
+    | some k => .union e (some k) cs
+    | none => o
+  | _, _ => o
+
 /-- the designation of one initializer of a list (p17): a designator list sets the cursor, otherwise the cursor stands -/
 def pathsOf (ty : Ty) (top : Bool) (cur : Option (List Nat)) (toks : List ITok) : Except Fail (List (List Nat) × List ITok) :=
   if isDesg toks then desigPaths ty top (toks.length + 1) [[]] toks
@@ -351,7 +360,7 @@ def initItemWith (rec : Ty → Bool → Init → Option (List Nat) → List ITok
       let t ← (match subTy ty p0 with | some t => pure t | none => .error (.crash "spec: bad path") : Except Fail Ty)
       let t := if growable ty top p0 then (match t with | .array e _ => Ty.inc e | t => t) else t
       let sub ← rec t false (braceStart t) (firstCursor t) inner true Flags.none
-      let subObj := unflex sub.obj
+      let subObj := defaultMember t (unflex sub.obj)
       let fl := (fl.join ⟨paths.any (touched obj), paths.any (exprAbove obj), decide (paths.length > 1)⟩).join sub.fl
       let obj ← paths.foldlM (fun o p => modifyAt ty top (fun _ _ => pure subObj) ty [] p o) obj
       rec ty top obj (next ty top (paths.getLast!.reverse)) sub.rest false fl
@@ -386,7 +395,7 @@ def initFull (ty : Ty) (toks : List ITok) : Except Fail Result :=
   match toks with
   | .lbrace :: r => do
     let res ← initList (toks.length + 2) ty true (newInit ty true) (firstCursor ty) r true Flags.none
-    pure { res with obj := unflex res.obj }
+    pure { res with obj := defaultMember ty (unflex res.obj) }
   | tok :: r =>
     -- p11 scalar, p13 struct-typed expression, p14/p15 string literal for a character array; anything else needs braces (p16)
     match ty, tok with
